@@ -747,7 +747,7 @@ func (h *handler) scenarioScript(ci *connInfo, cb string) {
 			h.doCall(ci, "write", 0, big(300000), false) // partly buffered
 			h.doCall(ci, "close", 0, nil, false)         // close request: el.close drains, the drain write fails
 		}
-	case "shutdown-sweep", "stale-requests":
+	case "shutdown-sweep", "stale-requests", "register-fails":
 		if cb == "traffic" {
 			h.doCall(ci, "next", -1, nil, false)
 		}
